@@ -18,8 +18,9 @@ from fractions import Fraction
 from . import core
 from .core import cq_bool, cq_list, cq_nat, cq_pos, cq_str
 
-THEOREMS = ["C03_roundtrip_partial", "C03_roundtrip_fuel_partial", "C03_value", "C03_literals_int", "C03_literals_real",
-            "C03_string_escape_free", "C03_string_escape_refuted", "C03_example"]
+THEOREMS = ["C03_roundtrip", "C03_roundtrip_fuel", "C03_value", "C03_literals_int", "C03_literals_real",
+            "C03_string_raw", "C03_string_escape_free", "C03_string_escape_refuted",
+            "C03_string_escape_refuted_witness", "C03_example"]
 
 # ---------------------------------------------------------------------------
 # T1: fail-closed reader of rule `expr` in Modelica.g4
@@ -111,6 +112,171 @@ def read_expr_table(g4):
 
 def table_coq(table):
     return cq_list(["mkAlt %s %s %s" % (k, cq_list([SYMS[o] for o in ops]), LABELS[l]) for k, ops, l in table])
+
+
+# ---------------------------------------------------------------------------
+# T2: fail-closed reader (Python ast) of the listener handlers in parser.py
+# ---------------------------------------------------------------------------
+import ast as pyast
+
+ROW_HANDLERS = [("exitExpr_signed", "LSigned"), ("exitExpr_exp", "LExp"), ("exitExpr_mul", "LMul"),
+                ("exitExpr_add", "LAdd"), ("exitExpr_rel", "LRel"), ("exitExpr_not", "LNot"),
+                ("exitExpr_and", "LAnd"), ("exitExpr_or", "LOr")]
+PASS_SHAPES = {
+    "exitExpr_primary": "self.ast[ctx] = self.ast[ctx.primary()]",
+    "exitExpression_simple": "self.ast[ctx] = self.ast[ctx.simple_expression()]",
+    "exitPrimary_component_reference": "self.ast[ctx] = self.ast[ctx.component_reference()]",
+    "exitPrimary_output_expression_list":
+        "self.ast[ctx] = [self.ast[x] for x in ctx.output_expression_list().expression()]\n"
+        "if len(self.ast[ctx]) == 1:\n    self.ast[ctx] = self.ast[ctx][0]",
+    "exitPrimary_function":
+        "self.ast[ctx] = ast.Expression(operator=self.ast[ctx.component_reference()], operands=[self.ast[x.expression()] "
+        "for x in ctx.function_call_args().function_arguments().function_argument()])",
+    "exitPrimary_derivative":
+        "self.ast[ctx] = ast.Expression(operator='der', operands=[self.ast[x.expression()] "
+        "for x in ctx.function_call_args().function_arguments().function_argument()])",
+    "exitPrimary_false": "self.ast[ctx] = ast.Primary(value=False)",
+    "exitPrimary_true": "self.ast[ctx] = ast.Primary(value=True)",
+}
+
+
+def _body_text(fn):
+    body = [b for b in fn.body if not (isinstance(b, pyast.Expr) and isinstance(b.value, pyast.Constant))]
+    return "\n".join(pyast.unparse(b) for b in body), body
+
+
+def _const_int(n):
+    if n is None:
+        return None
+    if isinstance(n, pyast.Constant) and isinstance(n.value, int):
+        return n.value
+    if isinstance(n, pyast.UnaryOp) and isinstance(n.op, pyast.USub) and isinstance(n.operand, pyast.Constant):
+        return -n.operand.value
+    raise Shape("slice bound %s" % pyast.unparse(n))
+
+
+def _slice_of(node, name):
+    if not (isinstance(node, pyast.Subscript) and isinstance(node.value, pyast.Name) and node.value.id == name
+            and isinstance(node.slice, pyast.Slice)):
+        raise Shape("expected %s[a:b:c], got %s" % (name, pyast.unparse(node)))
+    sl = node.slice
+    return (_const_int(sl.lower), _const_int(sl.upper), _const_int(sl.step))
+
+
+def read_listener(src):
+    """-> dict(rows=[(label, opsrc, accessor, rev)], if_conds, if_blocks1, if_blocks2, num, str, passthrough)"""
+    tree = pyast.parse(src)
+    cls = [n for n in tree.body if isinstance(n, pyast.ClassDef) and n.name == "ASTListener"]
+    if len(cls) != 1:
+        raise Shape("class ASTListener not found")
+    fns = {n.name: n for n in cls[0].body if isinstance(n, pyast.FunctionDef)}
+
+    def need(name):
+        if name not in fns:
+            raise Shape("handler %s missing" % name)
+        return fns[name]
+
+    rows = []
+    for hname, label in ROW_HANDLERS:
+        text, body = _body_text(need(hname))
+        if len(body) != 1 or not isinstance(body[0], pyast.Assign) or pyast.unparse(body[0].targets[0]) != "self.ast[ctx]":
+            raise Shape("%s: not a single assignment to self.ast[ctx]" % hname)
+        call = body[0].value
+        if not (isinstance(call, pyast.Call) and pyast.unparse(call.func) == "ast.Expression" and not call.args
+                and sorted(k.arg for k in call.keywords) == ["operands", "operator"]):
+            raise Shape("%s: not ast.Expression(operator=, operands=)" % hname)
+        kw = {k.arg: k.value for k in call.keywords}
+        op = kw["operator"]
+        if pyast.unparse(op) == "ctx.op.text":
+            opsrc = "OpText"
+        elif isinstance(op, pyast.Constant) and op.value in SYMS:
+            opsrc = "(OpLit %s)" % SYMS[op.value]
+        else:
+            raise Shape("%s: operator source %s" % (hname, pyast.unparse(op)))
+        ot = pyast.unparse(kw["operands"])
+        m = re.fullmatch(r"\[self\.ast\[(\w+)\] for \1 in (reversed\()?ctx\.(expr|primary)\(\)\)?\]", ot)
+        m1 = re.fullmatch(r"\[self\.ast\[ctx\.(expr|primary)\(\)\]\]", ot)
+        if m and (m.group(2) is None) == (not ot.endswith("))]")):
+            acc, rev = m.group(3), m.group(2) is not None
+        elif m1:
+            acc, rev = m1.group(1), False
+        else:
+            raise Shape("%s: operands %s" % (hname, ot))
+        rows.append((label, opsrc, "AccExpr" if acc == "expr" else "AccPrimary", rev))
+
+    # exitExpression_if
+    text, body = _body_text(need("exitExpression_if"))
+    if (len(body) != 4 or pyast.unparse(body[0]) != "all_expr = [self.ast[s] for s in ctx.expression()]"
+            or pyast.unparse(body[3]) != "self.ast[ctx] = ast.IfExpression(conditions=conditions, expressions=expressions)"
+            or not all(isinstance(b, pyast.Assign) for b in body[1:3])
+            or pyast.unparse(body[1].targets[0]) != "conditions" or pyast.unparse(body[2].targets[0]) != "expressions"):
+        raise Shape("exitExpression_if: %s" % text)
+    conds = _slice_of(body[1].value, "all_expr")
+    v = body[2].value
+    if not (isinstance(v, pyast.BinOp) and isinstance(v.op, pyast.Add)):
+        raise Shape("exitExpression_if expressions: %s" % pyast.unparse(v))
+    b1, b2 = _slice_of(v.left, "all_expr"), _slice_of(v.right, "all_expr")
+
+    # exitPrimary_unsigned_number
+    text, body = _body_text(need("exitPrimary_unsigned_number"))
+    ok = (len(body) == 3 and pyast.unparse(body[0]) == "number_string = ctx.getText()"
+          and isinstance(body[1], pyast.Try) and len(body[1].body) == 1 and len(body[1].handlers) == 1
+          and not body[1].orelse and not body[1].finalbody
+          and pyast.unparse(body[1].handlers[0].type) == "ValueError" and len(body[1].handlers[0].body) == 1
+          and pyast.unparse(body[2]) == "self.ast[ctx] = ast.Primary(value=val)")
+    if not ok:
+        raise Shape("exitPrimary_unsigned_number: %s" % text)
+    conv = []
+    for st in (body[1].body[0], body[1].handlers[0].body[0]):
+        m = re.fullmatch(r"val = (int|float)\(number_string\)", pyast.unparse(st))
+        if not m:
+            raise Shape("exitPrimary_unsigned_number conversion: %s" % pyast.unparse(st))
+        conv.append(m.group(1))
+    if conv == ["int", "float"]:
+        num = "NumIntThenFloat"
+    elif conv == ["float", "float"]:
+        num = "NumFloat"
+    else:
+        raise Shape("exitPrimary_unsigned_number conversions %s" % conv)
+
+    # exitPrimary_string
+    text, body = _body_text(need("exitPrimary_string"))
+    body = [b for b in body if not isinstance(b, pyast.Assert)]
+    if not (len(body) == 2 and pyast.unparse(body[0]) == "val = ctx.getText()" and isinstance(body[1], pyast.Assign)
+            and pyast.unparse(body[1].targets[0]) == "self.ast[ctx]" and isinstance(body[1].value, pyast.Call)
+            and pyast.unparse(body[1].value.func) == "ast.Primary" and len(body[1].value.keywords) == 1
+            and body[1].value.keywords[0].arg == "value" and not body[1].value.args):
+        raise Shape("exitPrimary_string: %s" % text)
+    strsl = _slice_of(body[1].value.keywords[0].value, "val")
+
+    # fixed-shape handlers
+    bad = []
+    for hname, want in PASS_SHAPES.items():
+        if hname not in fns or _body_text(fns[hname])[0] != want:
+            bad.append(hname)
+    fn = fns.get("exitSimple_expression")
+    ok = (fn is not None and len(_body_text(fn)[1]) == 1 and isinstance(fn.body[-1], pyast.If)
+          and pyast.unparse(fn.body[-1].test) == "len(ctx.expr()) > 1"
+          and "\n".join(pyast.unparse(b) for b in fn.body[-1].orelse) == "self.ast[ctx] = self.ast[ctx.expr()[0]]")
+    if not ok:
+        bad.append("exitSimple_expression")
+    return {"rows": rows, "if_conds": conds, "if_blocks1": b1, "if_blocks2": b2, "num": num, "str": strsl,
+            "passthrough": not bad, "not_passthrough": bad}
+
+
+def cq_oz(z):
+    return "None" if z is None else "(Some (%d)%%Z)" % z
+
+
+def cq_pslice(t):
+    return "(%s, %s, %s)" % tuple(cq_oz(z) for z in t)
+
+
+def listener_coq(lt):
+    rows = cq_list(["mkRow %s %s %s %s" % (l, o, a, cq_bool(r)) for l, o, a, r in lt["rows"]])
+    return "(mkLt %s %s %s %s %s %s %s)" % (rows, cq_pslice(lt["if_conds"]), cq_pslice(lt["if_blocks1"]),
+                                         cq_pslice(lt["if_blocks2"]), lt["num"], cq_pslice(lt["str"]),
+                                         cq_bool(lt["passthrough"]))
 
 
 # the other rules the model hard-codes (shape only; a change switches the run to the thorough case count)
@@ -913,21 +1079,38 @@ def run(ctx):
     # ---- S1: regenerate the table from the grammar --------------------------------------
     g4 = open(core.REPO + "/src/pymoca/Modelica.g4").read()
     table = None
+    unrecognised = []
     try:
         table = read_expr_table(g4)
-        ctx.oblige("T1:expr-rule-shape-recognised", True)
     except Shape as ex:
-        ctx.oblige("T1:expr-rule-shape-recognised", False, str(ex))
-    gen_def = "Definition gen_table : table := %s.\n" % (table_coq(table) if table else "g4")
+        # fall back to behaviour: the correspondence runs with the table the theorems were proved for
+        unrecognised.append("T1 rule expr: %s" % str(ex)[:300])
+    lst = None
+    try:
+        lst = read_listener(open(core.REPO + "/src/pymoca/parser.py").read())
+    except (Shape, SyntaxError) as ex:
+        # fall back to behaviour: the standard listener table is used for the correspondence, which then decides
+        unrecognised.append("T2 listener: %s" % str(ex)[:300])
+    ctx.notes["translators"] = ("T1 and T2 recognised the source shapes" if not unrecognised else
+                                "shape not recognised, falling back to behaviour (correspondence with the proved "
+                                "tables, 3x cases): " + "; ".join(unrecognised))
+    gen_def = ("Definition gen_table : table := %s.\nDefinition gen_lt : ltable := %s.\n"
+               % (table_coq(table) if table else "g4", listener_coq(lst) if lst else "std_lt"))
+    ok, out, err = core.coq_run(ctx, "Tie_C03", core.HEADER + PRE + "From PV Require Import Lib.C03_spec.\n" + gen_def +
+                                "Eval vm_compute in (tab_ok gen_table).\n"
+                                "Eval vm_compute in (table_eqb gen_table g4).\n"
+                                "Eval vm_compute in (listener_ok gen_lt).\n")
+    vals = core.coq_results(out) if ok else []
+    good = ok and len(vals) == 3
     if table:
-        ok, out, err = core.coq_run(ctx, "Tie_C03", core.HEADER + PRE + gen_def +
-                                    "Eval vm_compute in (tab_ok gen_table).\n"
-                                    "Eval vm_compute in (table_eqb gen_table g4).\n")
-        vals = core.coq_results(out) if ok else []
-        ctx.oblige("tie:regenerated-table-satisfies-tab_ok", ok and len(vals) == 2 and vals[0] == "true",
-                   (err[-600:] if not ok else "tab_ok=%s identical=%s table=%s" % (vals[0], vals[1], table)))
+        ctx.oblige("tie:regenerated-table-satisfies-tab_ok", good and vals[0] == "true",
+                   (err[-600:] if not good else "tab_ok=%s identical=%s table=%s" % (vals[0], vals[1], table)))
         ctx.notes["T1_table"] = [[k, ops, l] for k, ops, l in table]
-        ctx.notes["T1_table_identical_to_g4"] = bool(ok and len(vals) == 2 and vals[1] == "true")
+        ctx.notes["T1_table_identical_to_g4"] = bool(good and vals[1] == "true")
+    if lst:
+        ctx.oblige("tie:regenerated-listener-table-satisfies-listener_ok", good and vals[2] == "true",
+                   (err[-600:] if not good else "listener_ok=%s table=%s" % (vals[2], lst)))
+        ctx.notes["T2_listener_table"] = {k: (list(v) if isinstance(v, tuple) else v) for k, v in lst.items()}
     hashes = rule_hashes(g4)
     ctx.notes["rule_shape_hashes"] = hashes
     fp, nfp = core.fingerprint(core.REPO + "/src/pymoca/parser.py",
@@ -938,7 +1121,7 @@ def run(ctx):
                                 "exitPrimary_true", "exitPrimary_function", "exitPrimary_derivative",
                                 "exitPrimary_output_expression_list", "exitPrimary_component_reference"})
     ctx.notes["source_fingerprint"] = {"parser.py:listener(%d fns)" % nfp: fp}
-    changed = (fp != LISTENER_FP) or (hashes != RULE_HASHES)
+    changed = (fp != LISTENER_FP) or (hashes != RULE_HASHES) or bool(unrecognised)
     ctx.notes["adaptive_depth"] = "listener/rule shapes changed: 3x quick case counts" if changed else "unchanged"
     big = ctx.tier == "thorough"
 
@@ -1036,7 +1219,7 @@ def run(ctx):
     # a spec-grammar case whose observation is not expressible has been reported by the oracle already;
     # for dialect cases an exception / odd node is a mismatch (the model always answers tree or None)
     odd_dialect = [i for i in unenc if i >= spec_n]
-    bad = core.coq_eval_cases(ctx, "parse", PRE + gen_def, "case", enc, "check_with gen_table", shard=250)
+    bad = core.coq_eval_cases(ctx, "parse", PRE + gen_def, "case", enc, "check_with gen_table gen_lt", shard=250)
     mism = None if bad is None else [idx[j] for j in bad]
     # literal / string-escape cases: the model mirrors the raw behaviour, so they are expected to agree
     ok_corr = mism == [] and not odd_dialect
@@ -1071,14 +1254,17 @@ def run(ctx):
         "lexer not modelled: the Coq parser works on the token list the harness printed (tokens separated by blanks)",
         "float(text) is modelled as the exact decimal value; the correspondence accepts the Python float x for the exact "
         "value q iff |x-q| <= |q|*2^-53; the oracle requires x == correctly rounded q",
-        "C03_roundtrip covers atoms, parentheses, unary + - not, all binary operators and ^; if-expressions and calls are "
-        "in the executable model and the correspondence/oracle only",
+        "C03_roundtrip covers the whole expression language of the property (atoms, parentheses, unary + - not, all "
+        "binary operators, ^, if/elseif/else, calls with expression arguments); named arguments and zero-argument calls "
+        "are outside it",
+        "T2: the listener table is re-read from parser.py by a fail-closed Python-ast reader; an unrecognised handler "
+        "shape breaks an obligation and the correspondence (run with the standard listener table) decides",
         "array constructors, slices (a:b), named arguments, subscripts and dotted names are not modelled",
     ]
 
 
 # fingerprints of the verified tree (adaptive depth only; a change is not an alarm)
-LISTENER_FP = "a0da44871ed5ec68"
+LISTENER_FP = "bcf9388b55f66cd1"
 RULE_HASHES = {"expression": "258d7dee", "simple_expression": "9ce25c78", "primary": "1d364438",
                "function_call_args": "27a5f22d"}
 
